@@ -258,6 +258,7 @@ type trial struct {
 type suspicion struct {
 	sig, what string
 	witness   interface{}
+	sub       int // the subscriber the suspicion is about (-1: none in particular)
 }
 
 var branches = []string{"a", "b"}
@@ -454,10 +455,11 @@ func newTrial(r *vlib.Run, mode string, num int, rng *rand.Rand, scale int) *tri
 			default:
 				s.pattern = []int{pNever, pNever, pPermanent}[rng.Intn(3)]
 			}
-			// A merely slow peer: each of its first sends takes a quarter of the send
-			// timeout, ten of them two and a half timeouts. No single send stays
-			// blocked for the timeout, so the subscription must not be ended (a
-			// termination is confirmed at x6 and x30 like any other suspicion).
+			// A merely slow peer: each of its first 48 sends takes a sixteenth of the
+			// send timeout, three timeouts in all. No single send stays blocked for
+			// anything near the timeout (a sleep would have to overshoot sixteenfold),
+			// so the subscription must not be ended (a termination is confirmed at x6
+			// and x30, for the same subscriber, like any other suspicion).
 			if mode == "timeout" && s.pattern == pNever && rng.Intn(2) == 0 {
 				s.slow = true
 			}
@@ -904,9 +906,9 @@ func (t *trial) prep(s *sub) {
 		}
 		s.qs[i] = q
 		s.mu.Unlock()
-		if s.slow && i < 10 {
-			t.r.Count("slow_peer_sends_delayed_by_a_quarter_timeout", 1)
-			time.Sleep(t.timeout / 4)
+		if s.slow && i < 48 {
+			t.r.Count("slow_peer_sends_delayed_by_a_sixteenth_timeout", 1)
+			time.Sleep(t.timeout / 16)
 		}
 		if s.pattern != pNever && i == s.gateAt && atomic.LoadInt32(&s.released) == 0 {
 			s.gatedOnSync = m.GetSyncResponse()
@@ -1566,7 +1568,7 @@ func (t *trial) checkEnds(final bool) *suspicion {
 		}
 		// Short timeout, subscriber never held by the harness for that long: the
 		// machine may have been slow; to be confirmed at larger timeouts.
-		return &suspicion{sig: "timeout:terminated-without-blocked-send", what: fmt.Sprintf("[%s trial %d] subscriber %d (stall pattern %s, %d responses received) was terminated with the send-timeout error although none of its sends was blocked by the harness (send timeout %v)", t.mode, t.num, s.idx, patName[s.pattern], s.stream.NSent(), t.timeout), witness: t.config()}
+		return &suspicion{sub: s.idx, sig: "timeout:terminated-without-blocked-send", what: fmt.Sprintf("[%s trial %d] subscriber %d (stall pattern %s, %d responses received) was terminated with the send-timeout error although none of its sends was blocked by the harness (send timeout %v)", t.mode, t.num, s.idx, patName[s.pattern], s.stream.NSent(), t.timeout), witness: t.config()}
 	}
 	return nil
 }
@@ -1904,6 +1906,12 @@ func runEscalating(r *vlib.Run, mode string, num int) {
 		}
 		if first == nil {
 			first = sus
+		} else if sus.sub != first.sub {
+			// The trial is the same at every scale (same seed): a defect ends the same
+			// subscriber each time; a starved machine picks its victims at random.
+			r.Count("suspected_terminations_of_another_subscriber_at_larger_timeout", 1)
+			r.Inconclusive("a subscriber not blocked by the harness was ended by a short send timeout, and at a larger timeout another one was (slow machine)")
+			return
 		}
 		r.Count(fmt.Sprintf("suspected_terminations_at_timeout_scale_x%d", sc), 1)
 		if i == 0 {
